@@ -32,11 +32,22 @@ func HarnessFiles(verifDir, repo, id string) ([]HarnessFile, error) {
 		return nil, err
 	}
 	var out []HarnessFile
+	var paths []string
 	for _, e := range ents {
-		if !strings.HasSuffix(e.Name(), ".go") {
-			continue
+		if strings.HasSuffix(e.Name(), ".go") {
+			paths = append(paths, filepath.Join(dir, e.Name()))
 		}
-		p := filepath.Join(dir, e.Name())
+	}
+	// INCLUDE lists files of other properties' harness directories (shared rigs)
+	if inc, err := os.ReadFile(filepath.Join(dir, "INCLUDE")); err == nil {
+		for _, l := range strings.Split(string(inc), "\n") {
+			if l = strings.TrimSpace(l); l != "" && !strings.HasPrefix(l, "#") {
+				paths = append(paths, filepath.Join(verifDir, "harness", l))
+			}
+		}
+	}
+	for _, p := range paths {
+		e := fileName(p)
 		data, err := os.ReadFile(p)
 		if err != nil {
 			return nil, err
@@ -48,10 +59,12 @@ func HarnessFiles(verifDir, repo, id string) ([]HarnessFile, error) {
 		}
 		pd := strings.TrimSpace(strings.TrimPrefix(first, tag))
 		out = append(out, HarnessFile{Src: p, PkgDir: pd,
-			Virtual: filepath.Join(repo, pd, "zz_verif_"+id+"_"+e.Name())})
+			Virtual: filepath.Join(repo, pd, "zz_verif_"+filepath.Base(filepath.Dir(p))+"_"+e)})
 	}
 	return out, nil
 }
+
+func fileName(p string) string { return filepath.Base(p) }
 
 type Loaded struct {
 	Prog     *ssa.Program
